@@ -89,7 +89,7 @@ def main():
             res["build_err"] = e[-800:]
         rc, o, e = sh("cargo nextest run --workspace --no-fail-fast --test-threads " + os.environ.get("NT","8") + " --offline 2>&1 | tail -4", cwd=WT)
         res["tests"] = [l for l in o.splitlines() if "Summary" in l or "FAIL" in l]
-        res["tests_ok"] = any("546 passed, 1 failed" in l for l in o.splitlines()) and "number_long_decimal" in o
+        res["tests_ok"] = any(("546 passed, 1 failed" in l) or ("546 passed (" in l and "1 failed" in l) for l in o.splitlines()) and "number_long_decimal" in o
         if has_demo:
             exp = norm(open(d + "/expected.txt").read())
             res["demo"] = {}
